@@ -536,7 +536,9 @@ class Fn:
                 dty = self.locals[c.dest["l"]]
                 if ty_has_mut_ref(dty):
                     for a in c.args:
-                        if a.get("k") in ("copy", "move") and is_mut_ref_ty(self.locals[a["l"]]):
+                        # (mutable iterators and adapters over them carry the `&mut` onwards)
+                        if a.get("k") in ("copy", "move") and (is_mut_ref_ty(self.locals[a["l"]]) or any(
+                                m in self.locals[a["l"]].get("t", "") for m in MUT_ITERS)):
                             g[a["l"]].add(c.dest["l"])
             self._acd = g
         return self._acd
@@ -546,11 +548,12 @@ def is_mut_ref_ty(ty):
     return ty.get("k") in ("ref", "ptr") and ty.get("mut")
 
 
+MUT_ITERS = ("IterMut<", "ChunksMut<", "ChunksExactMut<", "RChunksMut<", "SplitMut<")
+
+
 def ty_has_mut_ref(ty):
-    if is_mut_ref_ty(ty):
-        return True
     t = ty.get("t", "")
-    return "&mut " in t or "*mut " in t
+    return "&mut " in t or "*mut " in t or any(m in t for m in MUT_ITERS)
 
 
 def operand_locals(o):
